@@ -294,6 +294,10 @@ func (d deviation) field() string {
 		return "permitted"
 	case "eku-clientauth-only":
 		return "eku"
+	case "nc-excludes-evil":
+		return "excluded"
+	case "san-evil", "san-within", "leaf-no-san":
+		return "dns"
 	case "twin-root-added", "twin-root-replaces":
 		return "twinroot"
 	}
@@ -319,6 +323,11 @@ func listDeviations(n int) []deviation {
 	add("nc-permits-other", 1, n+1)
 	add("nc-permits-leaf", 1, n+1)
 	add("eku-clientauth-only", 0, n+1)
+	// names claimed by certificates that are not the leaf, and certificates without any subjectAltName below them
+	add("nc-excludes-evil", 1, n+1)
+	add("san-evil", 1, n)
+	add("san-within", 1, n)
+	add("leaf-no-san", 0, 0)
 	r = append(r, deviation{"other-root", -1}, deviation{"twin-root-added", -1}, deviation{"twin-root-replaces", -1})
 	add("cross-signed", 1, n)
 	add("twin-intermediate", 1, n)
@@ -362,6 +371,14 @@ func (p *pkiSpec) apply(d deviation) {
 		p.chain[d.pos].permitted = []string{"example.com"}
 	case "eku-clientauth-only":
 		p.chain[d.pos].eku = []x509.ExtKeyUsage{x509.ExtKeyUsageClientAuth}
+	case "nc-excludes-evil":
+		p.chain[d.pos].excluded = []string{"evil.test"}
+	case "san-evil":
+		p.chain[d.pos].dns = []string{"ca.evil.test"}
+	case "san-within":
+		p.chain[d.pos].dns = []string{"ca.example.com"}
+	case "leaf-no-san":
+		p.chain[d.pos].dns = nil
 	case "other-root":
 		k := topoKey(p.kind(n+1), roleOther, 0)
 		p.extraR = append(p.extraR, mAttr{name: "C15 Other Root", key: k, issuerName: "C15 Other Root", signer: k, akiOf: k, caMode: 1,
@@ -708,7 +725,7 @@ func runTopo(t *engine.T, mode string, n int, devs []deviation, times []vtime) m
 
 func benign(d deviation) bool {
 	switch d.kind {
-	case "pathlen-tight", "nc-permits-leaf", "other-root", "twin-root-added", "cross-signed", "twin-intermediate":
+	case "pathlen-tight", "nc-permits-leaf", "nc-excludes-evil", "san-evil", "san-within", "leaf-no-san", "other-root", "twin-root-added", "cross-signed", "twin-intermediate":
 		return true
 	}
 	return false
